@@ -343,5 +343,140 @@ theorem simInv_gameOne (h : SimInv addrs ready bm g s gi si) (tr : TxRec) (rel :
     h.txS, h.tx, h.blk⟩
   show AMap.put si.game _ _ = AMap.put gi.game _ _
   rw [h.game]
+-- ------------------------------------------------------------------ the apply phase, function by function
+
+/-- the pair of working states: same working balances, stores related -/
+def SimR (addrs : List Addr) (ready : List Wid) (bm : BlockMeta) (g s : Store) (gb sb : Store × Bals) : Prop :=
+  sb.2 = gb.2 ∧ SimInv addrs ready bm g s gb.1 sb.1
+
+theorem spendOne_sim {tr : TxRec} {rel : Rel} {gb sb gb' : Store × Bals} (h : SimR addrs ready bm g s gb sb)
+    (hw : ready.contains rel.wallet = true) (hg : spendOne tr bm gb rel = .ok gb') :
+    ∃ sb', spendOne tr bm sb rel = .ok sb' ∧ SimR addrs ready bm g s gb' sb' := by
+  obtain ⟨gi, bals⟩ := gb
+  obtain ⟨si, bals'⟩ := sb
+  obtain ⟨hb, h⟩ := h
+  dsimp only at hb h
+  subst hb
+  unfold spendOne at hg
+  split at hg
+  · cases hg
+  rename_i i hi
+  split at hg
+  · cases hg
+  rename_i cblk hu
+  split at hg
+  · cases hg
+  rename_i c hc
+  split at hg
+  · cases hg
+  rename_i hsp
+  split at hg
+  · cases hg
+  rename_i hgm
+  split at hg
+  · cases hg
+  rename_i hbal
+  cases hg
+  dsimp only at hu hc hgm hbal
+  have hsh := h.coins _ _ _ _ _ hw hu hc
+  have hsc : AMap.get si.credits ⟨i.tx, cblk, i.idx⟩ = some c := by
+    rcases h.cred.sub ⟨i.tx, cblk, i.idx⟩ with e | ⟨_, cr, e1, e2⟩
+    · rw [e]; exact hc
+    · rw [hc] at e1; cases e1; rw [hsh] at e2; cases e2
+  refine ⟨spendApply tr bm (si, bals') rel i cblk c, ?_, rfl, simInv_spendApply h bals' tr rel hc hsc hsh⟩
+  unfold spendOne
+  simp only [hi, h.unspent, hu, hsc, h.game, hsp, hgm, hbal, if_false]
+  rfl
+
+theorem updateMinedBalance_sim {tr : TxRec} {bals : Bals} {gb' : Store × Bals}
+    (h : SimInv addrs ready bm g s gi si) (hw : ∀ rel ∈ tr.relIn, ready.contains rel.wallet = true)
+    (hg : updateMinedBalance gi bals tr bm = .ok gb') :
+    ∃ sb', updateMinedBalance si bals tr bm = .ok sb' ∧ SimR addrs ready bm g s gb' sb' :=
+  foldlM_sim (SimR addrs ready bm g s) _ _ tr.relIn
+    (fun _ _ rel _ hrel hR hf => spendOne_sim hR (hw rel hrel) hf) (b := (gi, bals)) (c := (si, bals)) ⟨rfl, h⟩ hg
+
+theorem insertMinedTx_sim {own : Own} {tr : TxRec} {bals : Bals} {r : Store × Bals × Bool}
+    (h : SimInv addrs ready bm g s gi si) (hw : ∀ rel ∈ tr.relIn, ready.contains rel.wallet = true)
+    (hg : insertMinedTx own gi bals tr bm = .ok r) :
+    ∃ r', insertMinedTx own si bals tr bm = .ok r' ∧ r'.2.1 = r.2.1 ∧ SimInv addrs ready bm g s r.1 r'.1 := by
+  unfold insertMinedTx at hg ⊢
+  rw [h.tx.new (tr.tx.id, bm) rfl]
+  split at hg
+  · rename_i hx
+    cases hg
+    rw [if_pos hx]
+    exact ⟨_, rfl, rfl, h⟩
+  · rename_i hx
+    rw [if_neg hx]
+    obtain ⟨gb1, h1, h2⟩ := M_bind_ok hg
+    obtain ⟨sb1, hs1, hb, hI⟩ := updateMinedBalance_sim (simInv_recordMinedTx h tr) hw h1
+    cases h2
+    rw [hs1]
+    refine ⟨_, rfl, hb, ?_⟩
+    exact simInv_minedEq hI
+      ((minedEq_unpendMined _ _).trans (minedEq_removeDoubleSpends own _ tr))
+      ((minedEq_unpendMined _ _).trans (minedEq_removeDoubleSpends own _ tr))
+
+theorem creditOne_sim {p : Params} {tr : TxRec} {rel : Rel} {gb sb gb' : Store × Bals}
+    (h : SimR addrs ready bm g s gb sb) (ha : addrs.contains rel.out.addr = false)
+    (hg : creditOne p tr bm gb rel = .ok gb') :
+    ∃ sb', creditOne p tr bm sb rel = .ok sb' ∧ SimR addrs ready bm g s gb' sb' := by
+  obtain ⟨gi, bals⟩ := gb
+  obtain ⟨si, bals'⟩ := sb
+  obtain ⟨hb, h⟩ := h
+  dsimp only at hb h
+  subst hb
+  unfold creditOne at hg ⊢
+  dsimp only at hg ⊢
+  rw [h.cred.new ⟨tr.tx.id, bm, rel.index⟩ rfl]
+  split at hg
+  · cases hg
+  · rename_i hx
+    cases hg
+    rw [if_neg hx]
+    exact ⟨_, rfl, rfl, simInv_creditApply h p bals' tr ha⟩
+
+theorem foldl_simInv {α : Type} (f : Store → α → Store) (l : List α)
+    (hf : ∀ gi si a, SimInv addrs ready bm g s gi si → SimInv addrs ready bm g s (f gi a) (f si a))
+    (h : SimInv addrs ready bm g s gi si) : SimInv addrs ready bm g s (l.foldl f gi) (l.foldl f si) := by
+  induction l generalizing gi si with
+  | nil => exact h
+  | cons a l ih => exact ih (hf _ _ a h)
+
+theorem addCredits_sim {p : Params} {tr : TxRec} {bals : Bals} {gb' : Store × Bals}
+    (h : SimInv addrs ready bm g s gi si) (ha : ∀ rel ∈ tr.relOut, addrs.contains rel.out.addr = false)
+    (hg : addCredits p gi bals tr bm = .ok gb') :
+    ∃ sb', addCredits p si bals tr bm = .ok sb' ∧ SimR addrs ready bm g s gb' sb' := by
+  unfold addCredits at hg ⊢
+  split at hg
+  · rename_i hx
+    cases hg
+    rw [if_pos hx]
+    exact ⟨_, rfl, rfl, h⟩
+  · rename_i hx
+    rw [if_neg hx]
+    obtain ⟨gb1, h1, h2⟩ := M_bind_ok hg
+    obtain ⟨sb1, hs1, hb, hI⟩ := foldlM_sim (SimR addrs ready bm g s) _ _ tr.relOut
+      (fun _ _ rel _ hrel hR hf => creditOne_sim hR (ha rel hrel) hf) (b := (gi, bals)) (c := (si, bals)) ⟨rfl, h⟩ h1
+    cases h2
+    rw [hs1]
+    exact ⟨_, rfl, hb, foldl_simInv _ _ (fun _ _ rel hh => simInv_gameOne hh tr rel) hI⟩
+
+theorem addRelevantMined_sim {p : Params} {own : Own} {tr : TxRec} {gb sb gb' : Store × Bals}
+    (h : SimR addrs ready bm g s gb sb) (hw : ∀ rel ∈ tr.relIn, ready.contains rel.wallet = true)
+    (ha : ∀ rel ∈ tr.relOut, addrs.contains rel.out.addr = false)
+    (hg : addRelevantMined p own gb.1 gb.2 tr bm = .ok gb') :
+    ∃ sb', addRelevantMined p own sb.1 sb.2 tr bm = .ok sb' ∧ SimR addrs ready bm g s gb' sb' := by
+  obtain ⟨hb, h⟩ := h
+  unfold addRelevantMined at hg ⊢
+  rw [hb]
+  obtain ⟨r, h1, h2⟩ := M_bind_ok hg
+  obtain ⟨r', hs1, hb1, hI⟩ := insertMinedTx_sim h hw h1
+  rw [hs1]
+  obtain ⟨gi1, bals1, fl⟩ := r
+  obtain ⟨si1, bals1', fl'⟩ := r'
+  dsimp only at hb1 hI h2 ⊢
+  subst hb1
+  exact addCredits_sim hI ha h2
 
 end MW.Lemmas.RemoveSim
